@@ -146,7 +146,7 @@ align 16
 	sub	DWORD(len), 1
 	setz	al
 	add	src, 16
-	add	rax, tmp0
+	or	rax, tmp0 ; not add: 1 + an all-ones value would wrap to zero
 	jz	.mem_z_small_block_loop
 
 	test	tmp0, tmp0
